@@ -1403,7 +1403,11 @@ def real_oracle(ctx: Ctx, w: World, fmt: str, pt: int, x: int, doc: str, td: int
         if fresh_exc is not None:
             nerr += 1
             hidden = [t for t in shown if t["body"] != "pre:" + enc(doc)]
-            if hidden:
+            if hidden and all(t["body"] == "broken" for t in hidden):
+                fail("render-fallback:display-differs", "rendering this docstring fails (%s) and format_docstring shows only the "
+                     "'Broken description' placeholder instead of the whole original text of %s"
+                     % (type(fresh_exc).__name__, NAMES[hold]))
+            elif hidden:
                 fail("render:failure-hidden-by-cached-state",
                      "rendering this docstring fails (%s) but format_docstring showed something else than the whole original "
                      "text in %d of %d calls (entry-point order %s): a failed to_node() leaves a half-built cached document behind"
